@@ -272,8 +272,11 @@ class SuperSpeedStreamInEndpoint(Elaboratable):
                 # Send our ERDY token...
                 m.d.comb += handshakes_out.send_erdy.eq(1)
 
-                # ... and once that send is complete, move on to waiting for an IN token.
-                with m.If(handshakes_out.done):
+                # ... and once that request has been accepted, move on to waiting for an IN token. (We can't
+                # wait for ``done``: that may be the completion of an NRDY that's still being sent.) The host
+                # will poll us again; so we don't owe it another ERDY until we send the next NRDY.
+                with m.If(handshakes_out.ready):
+                    m.d.ss += erdy_required.eq(0)
                     m.next = "WAIT_TO_SEND"
 
 
